@@ -808,6 +808,138 @@ def bounded_powers(rep: C.Report) -> None:
         ob.detail += f"{type(e).__name__}: {e}"
 
 
+def regex_backtracking(rep: C.Report) -> None:
+    """Ob12: no regular expression of the package repeats, without bound, a body that can split one of its own matches into
+    several (`(X+)*`): on a failing match such a pattern tries exponentially many splits (the expander's tokenizer runs its
+    patterns over every page and template body).  For every unbounded repeat whose body itself contains an unbounded repeat,
+    z3 decides (regular languages, no length bound) whether some string is one iteration AND two-or-more iterations of the
+    body; a witness w is replayed: `expand()` of documents that embed w * n must return within 10 s."""
+    import re as _re
+    import sre_constants as K
+    import sre_parse
+    import warnings
+
+    from vf import resym as R
+
+    ob = rep.add(C.Ob("Ob12 no regular expression repeats a self-overlapping body without bound (catastrophic backtracking)", "E2 z3 regex (ambiguity of the repeated body, unbounded) + replay under an alarm", ["module-level patterns of core.py, parser.py, parserfns.py, common.py"], "every unbounded repeat that contains an unbounded repeat (outside look-arounds)"))
+    try:
+        import wikitextprocessor.common as m_common
+        import wikitextprocessor.core as m_core
+        import wikitextprocessor.parser as m_parser
+        import wikitextprocessor.parserfns as m_pf
+
+        pats = {}
+        for mod in (m_core, m_parser, m_pf, m_common):
+            for k, v in vars(mod).items():
+                nm = f"{mod.__name__.split('.')[-1]}.{k}"
+                if isinstance(v, _re.Pattern):
+                    pats[nm] = (v.pattern, v.flags)
+                elif isinstance(v, str) and k.isupper() and len(v) > 8 and any(ch in v for ch in "*+"):
+                    try:
+                        _re.compile(v)
+                        pats[nm] = (v, 0)
+                    except _re.error:
+                        pass
+
+        def has_unbounded(seq):
+            for op, av in seq:
+                if op in (K.MAX_REPEAT, K.MIN_REPEAT):
+                    if av[1] == K.MAXREPEAT or has_unbounded(av[2]):
+                        return True
+                elif op == K.SUBPATTERN and has_unbounded(av[3]):
+                    return True
+                elif op == K.BRANCH and any(has_unbounded(b) for b in av[1]):
+                    return True
+            return False
+
+        def outer_repeats(seq, out):
+            for op, av in seq:
+                if op in (K.MAX_REPEAT, K.MIN_REPEAT):
+                    if av[1] == K.MAXREPEAT and has_unbounded(av[2]):
+                        out.append(av[2])
+                    outer_repeats(av[2], out)
+                elif op == K.SUBPATTERN:
+                    outer_repeats(av[3], out)
+                elif op == K.BRANCH:
+                    for b in av[1]:
+                        outer_repeats(b, out)
+            return out
+
+        ambiguous = []
+        seen_bodies = set()
+        with warnings.catch_warnings():
+            warnings.simplefilter("ignore")
+            for nm, (pat, fl) in sorted(pats.items()):
+                try:
+                    tree = sre_parse.parse(pat, fl)
+                except Exception:  # noqa: BLE001
+                    continue
+                for body in outer_repeats(tree, []):
+                    key = (pat, str(body))
+                    if key in seen_bodies:
+                        continue
+                    seen_bodies.add(key)
+                    ob.conditions += 1
+                    try:
+                        B = R._seq(body, tree.state.flags | fl)
+                    except R.Unsupported:
+                        ob.detail += f"{nm}: repeated body not encodable (look-around); "
+                        continue
+                    x = z3.String("x")
+                    sol = z3.Solver()
+                    sol.set("timeout", 30000)
+                    sol.add(z3.InRe(x, B), z3.InRe(x, z3.Concat(B, z3.Plus(B))), z3.Length(x) > 0)
+                    t0 = time.time()
+                    r = str(sol.check())
+                    ob.solver_s += time.time() - t0
+                    ob.queries += 1
+                    ob.paths += 1
+                    if r == "unsat":
+                        ob.confirmed_conditions += 1
+                    elif r == "sat":
+                        ambiguous.append((nm, R.z3str_to_py(sol.model().eval(x, model_completion=True).as_string())))
+                    else:
+                        ob.detail += f"{nm}: solver {r}; "
+        ob.samples.append({"patterns_examined": len(pats), "nested_unbounded_repeats": ob.conditions, "ambiguous_bodies": ambiguous[:5]})
+        if not ambiguous and not C.distrust():
+            ob.verdict = C.DISCHARGED if not ob.detail or ob.confirmed_conditions == ob.conditions else C.INCONCLUSIVE
+            if ob.detail and ob.confirmed_conditions != ob.conditions:
+                ob.verdict = C.INCONCLUSIVE
+            return
+        import signal
+
+        from wikitextprocessor import Wtp
+
+        def _alarm(sig, frm):
+            raise TimeoutError()
+
+        w = Wtp(quiet=True, quiet_output=True)
+        w.add_page("Template:t", 10, "[{{{1|}}}]")
+        old = signal.signal(signal.SIGALRM, _alarm)
+        try:
+            for nm, wit in (ambiguous or [("-", "a")]):
+                unit = wit if len(wit) <= 4 else wit[:2]
+                for pre, post in (("{{{1|", "{{{2|you}}}}}}"), ("{{t|", "{{{"), ("[[", "[x"), ("<", " a="), ("", "{{{")):
+                    doc = pre + unit * 40 + post
+                    w.start_page("T")
+                    signal.alarm(10)
+                    try:
+                        w.expand(doc)
+                    except TimeoutError:
+                        v = rep.violation(f"expand({pre!r} + {unit!r} * 40 + {post!r})", f"expand() does not return within 10 s: the pattern {nm} repeats a body that can split its own match ({wit!r} is one iteration and several)", {"doc": doc})
+                        ob.verdict = C.VIOLATED if v.known is None else C.KNOWN
+                        return
+                    except Exception:  # noqa: BLE001
+                        w.expand_stack = []
+                    finally:
+                        signal.alarm(0)
+        finally:
+            signal.signal(signal.SIGALRM, old)
+        ob.detail += f"ambiguous repeated bodies {ambiguous[:3]} but the documents built from the witnesses expand at once -> inconclusive"
+    except Exception as e:  # noqa: BLE001
+        ob.detail += f"{type(e).__name__}: {e}"
+
+
 def lookup_terminates(rep: C.Report) -> None:
     """Ob9: the page lookups the expander relies on cannot recurse without bound.  Call-graph fact over class Wtp: none of
     get_page, get_page_resolve_redirect, get_page_body, page_exists reaches itself through self.<method>() calls (a redirect
@@ -981,6 +1113,7 @@ def run(rep: C.Report) -> None:
     int_conversions(rep)
     lookup_terminates(rep)
     bounded_powers(rep)
+    regex_backtracking(rep)
     placeholder_input(rep)
     depth_guard(rep)
     loop_check_order(rep)
